@@ -4,6 +4,7 @@ import (
 	"bufio"
 	"encoding/json"
 	"io"
+	"os"
 
 	"github.com/bfenetworks/bfe/bfe_bufio"
 
@@ -205,7 +206,7 @@ func runReader(c *bufCase, cid int, std bool) []bufEv {
 	var evs []bufEv
 	for i, op := range c.Ops {
 		ev := bufEv{Cid: cid, Ev: op.Op, A: op.A, Data: []int{}, Delta: []int{}, Tot: -1}
-		p := vh.Guard(func() {
+		p, finished := guardTimeout(func() {
 			var err error
 			switch op.Op {
 			case "read":
@@ -275,6 +276,12 @@ func runReader(c *bufCase, cid int, std bool) []bufEv {
 				ev.Tot = br.TotalRead
 			}
 		})
+		if !finished {
+			bufHangs++
+			evs = append(evs, bufEv{Cid: cid, Ev: op.Op, A: op.A, Data: []int{}, Delta: []int{}, Tot: -1, Err: -2,
+				Det: "call did not return within 12s"})
+			break
+		}
 		if p != "" {
 			ev.Err, ev.Det = -1, p
 			evs = append(evs, ev)
@@ -316,7 +323,7 @@ func runWriter(c *bufCase, cid int, std bool) []bufEv {
 	for i, op := range c.Ops {
 		ev := bufEv{Cid: cid, Ev: op.Op, A: op.A, Data: []int{}, Delta: []int{}, Tot: -1}
 		before := len(under.b)
-		p := vh.Guard(func() {
+		p, finished := guardTimeout(func() {
 			var err error
 			switch op.Op {
 			case "write":
@@ -356,6 +363,12 @@ func runWriter(c *bufCase, cid int, std bool) []bufEv {
 				ev.Tot = bw.TotalWrite
 			}
 		})
+		if !finished {
+			bufHangs++
+			evs = append(evs, bufEv{Cid: cid, Ev: op.Op, A: op.A, Data: []int{}, Delta: []int{}, Tot: -1, Err: -2,
+				Det: "call did not return within 12s"})
+			break
+		}
 		if len(under.b) >= before {
 			ev.Delta = toInts(under.b[before:])
 		}
@@ -368,6 +381,9 @@ func runWriter(c *bufCase, cid int, std bool) []bufEv {
 	}
 	return evs
 }
+
+// bufHangs counts calls that did not return (each leaves a goroutine behind).
+var bufHangs int
 
 func sameReply(a, b *bufEv) bool {
 	if a.N != b.N || a.Err != b.Err || a.Pfx != b.Pfx || len(a.Data) != len(b.Data) {
@@ -392,6 +408,9 @@ func bufioRun() {
 			return
 		}
 		cases++
+		if bufHangs >= 3 {
+			return
+		}
 		var a, b []bufEv
 		if c.Kind == "w" {
 			a, b = runWriter(&c, 2*c.ID, false), runWriter(&c, 2*c.ID+1, true)
@@ -430,5 +449,9 @@ func bufioRun() {
 		}
 	})
 	vh.Emit(map[string]interface{}{"summary": true, "cases": cases, "drift": drift, "drift_examples": driftEx,
-		"std_diff": stdDiff, "std_diff_examples": stdDiffEx})
+		"std_diff": stdDiff, "std_diff_examples": stdDiffEx, "hangs": bufHangs})
+	if bufHangs > 0 {
+		vh.Flush()
+		os.Exit(0) // do not wait for the spinning goroutines
+	}
 }
